@@ -25,6 +25,5 @@ def check(ctx):
     ctx.run(rule_plan_records_dependencies, "C06.X1")
     ctx.run(E.rule_callbacks_only_via_engine, "C06.X1", r, [rr.runcb, rr.stalecb])
     ctx.run(rule_error_path_total, "C06.X4")
-    from .common import rule_pruning_preserves_paths
     from .prunerules import rule_pruning_evaluated as _rpe
     ctx.run(_rpe, "C06.X1", rr)
